@@ -31,8 +31,8 @@ typedef struct { int nev, cap; ev_t *ev; } ptask;
 static ptask PT[MAXTASK];
 static int nptask;
 static const long *P;
-enum { D_NTASKS, D_NWORKERS, D_SEED, D_POLICY, D_ZERO_PM, D_LENCLASS, D_NFILES, D_OPTSEED, D_NSETTINGS, D_NP };
-static const char *const pnames[] = { "ntasks", "nworkers", "seed", "policy", "zero_pm", "lenclass", "nfiles", "optseed", "nsettings" };
+enum { D_NTASKS, D_NWORKERS, D_SEED, D_POLICY, D_ZERO_PM, D_LENCLASS, D_NFILES, D_OPTSEED, D_NSETTINGS, D_WIDE, D_NP };
+static const char *const pnames[] = { "ntasks", "nworkers", "seed", "policy", "zero_pm", "lenclass", "nfiles", "optseed", "nsettings", "wide" };
 static char filenames[50][24];
 
 static void ev_push(ptask *t, ev_t e) {
@@ -50,6 +50,25 @@ static void gen_task(int me, uint64_t *x, int *budget, int depth) {
   int open = 0, nfiles = (int)(P[D_NFILES] < 1 ? 1 : P[D_NFILES] > 50 ? 50 : P[D_NFILES]);
   int steps = 1 + (int)(mvsim_splitmix(x) % 9);
   int created_here[8] = { 0 };
+  if (me == 0 && P[D_WIDE] > 0) {
+    /* a wide section first: the root creates many trivial children before it waits (under the help-first policy
+       they are all ready at the same instant: wide DAGs, long ready lists in every consumer of the file) */
+    long wide = P[D_WIDE]; if (wide > MAXTASK - 8 - *budget) wide = MAXTASK - 8 - *budget;
+    { ev_t b; memset(&b, 0, sizeof b); b.kind = EV_BEGIN; ev_push(t, b); }
+    for (long w = 0; w < wide && nptask < MAXTASK - 1; w++) {
+      uint64_t h = mvsim_splitmix(x);
+      ev_t e; memset(&e, 0, sizeof e);
+      e.len = gen_len(h); e.file = (int)((h >> 20) % (uint64_t)nfiles); e.line = 1 + (int)((h >> 30) % 500);
+      int child = nptask++;
+      e.kind = EV_CREATE; e.child = child; ev_push(t, e);
+      ptask *c = &PT[child]; c->nev = 0;
+      ev_t ce; memset(&ce, 0, sizeof ce); uint64_t h2 = mvsim_splitmix(x);
+      if (h2 & 1) { ce.kind = EV_OTHER; ce.len = gen_len(h2 >> 3); ce.rt = (long)((h2 >> 50) % 50); ce.file = (int)((h2 >> 20) % (uint64_t)nfiles); ce.line = 3; ev_push(c, ce); }
+      memset(&ce, 0, sizeof ce); ce.kind = EV_END; ce.len = gen_len(h2 >> 7); ce.file = (int)((h2 >> 24) % (uint64_t)nfiles); ce.line = 9; ev_push(c, ce);
+      t = &PT[me];
+    }
+    { uint64_t h = mvsim_splitmix(x); ev_t e; memset(&e, 0, sizeof e); e.kind = EV_WAIT; e.len = gen_len(h); e.file = (int)((h >> 20) % (uint64_t)nfiles); e.line = 5; ev_push(t, e); }
+  }
   for (int s = 0; s < steps; s++) {
     uint64_t h = mvsim_splitmix(x);
     ev_t e; memset(&e, 0, sizeof e);
@@ -469,6 +488,11 @@ static void gen(mvsim_rng *r, long *p, int tier) {
   p[D_NFILES] = mvh_range(r, 1, 50);
   p[D_OPTSEED] = (long)(mvsim_rng_next(r) >> 30);
   p[D_NSETTINGS] = mvh_range(r, 2, tier ? 6 : 4);
+  p[D_WIDE] = 0;
+  if (mvh_chance(r, 40)) {   /* occasionally a wide DAG: 60..300 children of one section, ready at the same time */
+    static const long wd[] = { 60, 99, 100, 101, 128, 150, 257, 300 };
+    p[D_WIDE] = mvh_pick(r, wd, 8); p[D_POLICY] = 1; if (p[D_NTASKS] > 60) p[D_NTASKS] = 60;
+  }
 }
 static void describe(const long *p, FILE *f) {
   fprintf(f, "drsim tasks<=%ld workers=%ld policy=%s zero-length-intervals=%ld/1000 length-class=%ld files=%ld contraction-settings=%ld",
